@@ -17,7 +17,7 @@ from sim.choices import Choices, hash64
 from sim.procs import template_init
 
 STR_POOL = ["x", "y", "x b=y", "z", "y b=z", "", " ", "=", "a=1", "None", "1", "x" * 70, "x" * 130, "q r", "b=", "0.5", "é", "a'b", 'a"b', "x\ty"]
-INT_POOL = [0, 1, 2, -1, 10, 2**40]
+INT_POOL = [0, -1, -2, 1, 2, 10, 2**40]  # (-1 and -2: unequal, but CPython hashes them alike)
 FLOAT_POOL = [0.0, 1.0, 0.5, 1e-9, 0.1 + 0.2, 0.3, 1e22, -0.0]
 
 
